@@ -17,6 +17,13 @@ class HarnessError(Exception):
     """The harness itself is broken (never reported as a violation)."""
 
 
+class ScenarioUnavailable(Exception):
+    """A scenario needs a plain, conformant exchange to succeed first (a
+    warm-up request, the authentic exchange that is then tampered with) and
+    that exchange fails on this tree.  The property at hand says nothing about
+    that (others do); the scenario is skipped and the evidence says so."""
+
+
 class NeverCompletes(Exception):
     """The operation is still pending although nothing it could wait for is
     outstanding (the environment has answered everything, timers have run)."""
